@@ -76,13 +76,43 @@ def grid(ctx, per_problem=None):
                                               "substitution_probability": 0.5, "variable_order_cost_a": 0.5, "variable_order_cost_b": 0.25, "sales_price_a": 1.0, "sales_price_b": 2.0}})
     out.append({"kind": "hendrix", "params": {"max_useful_life": 2, "max_order_quantity_a": 2, "max_order_quantity_b": 3, "demand_poisson_mean_a": 2.0, "demand_poisson_mean_b": 5.0,
                                               "substitution_probability": 0.25, "variable_order_cost_a": 0.5, "variable_order_cost_b": 0.25, "sales_price_a": 1.0, "sales_price_b": 2.0}})
+    # construction HISTORY: the measured problem is built after a sibling of the same class that differs in ONE size parameter
+    # (same demand distribution parameters) was built in the same process - a problem's functions depend on its own parameters only
+    sib = [("de_moor", {"max_demand": 5, "demand_gamma_mean": 2.5, "demand_gamma_cov": 0.5, "max_useful_life": 2, "lead_time": 1, "max_order_quantity": 2,
+                        "variable_order_cost": 3.0, "shortage_cost": 5.0, "wastage_cost": 7.0, "holding_cost": 1.0, "issue_policy": "fifo"}, [{"max_demand": 8}]),
+           ("de_moor", {"max_demand": 8, "demand_gamma_mean": 4.0, "demand_gamma_cov": 0.5, "max_useful_life": 2, "lead_time": 1, "max_order_quantity": 2,
+                        "variable_order_cost": 3.0, "shortage_cost": 5.0, "wastage_cost": 7.0, "holding_cost": 1.0, "issue_policy": "lifo"}, [{"max_demand": 4}, {"max_order_quantity": 3}]),
+           ("hendrix", {"max_useful_life": 2, "max_order_quantity_a": 2, "max_order_quantity_b": 1, "demand_poisson_mean_a": 2.0, "demand_poisson_mean_b": 2.0,
+                        "substitution_probability": 0.5, "variable_order_cost_a": 0.5, "variable_order_cost_b": 0.25, "sales_price_a": 1.0, "sales_price_b": 2.0},
+            [{"max_order_quantity_a": 1, "max_order_quantity_b": 3}]),
+           ("mirjalili", {"max_demand": 4, "max_useful_life": 2, "max_order_quantity": 2, "weekday_demand_negbin_n": [3.5] * 7, "weekday_demand_negbin_delta": [5.7] * 7,
+                          "useful_life_at_arrival_distribution_c_0": [0.5], "useful_life_at_arrival_distribution_c_1": [0.25],
+                          "variable_order_cost": 1.0, "fixed_order_cost": 10.0, "shortage_cost": 20.0, "wastage_cost": 5.0, "holding_cost": 0.5},
+            [{"max_demand": 2}, {"max_demand": 6, "max_order_quantity": 3}]),
+           ("forest", {"S": 5, "p": 0.25, "r1": 4.0, "r2": 2.0}, [{"S": 3}, {"S": 8, "p": 0.5}])]
+    for kind, params, changes in sib:
+        out.append({"kind": kind, "params": params, "pre": [{"kind": kind, "params": dict(params, **ch)} for ch in changes]})
+    return out
+
+
+def large(ctx):
+    """parameterisations whose state space has more than 2^16 rows (the index of every row is checked, transitions from a sample)"""
+    quick = ctx.tier == "quick"
+    out = [{"kind": "de_moor", "params": {"max_demand": 6, "demand_gamma_mean": 4.0, "demand_gamma_cov": 0.5, "max_useful_life": 3, "lead_time": 3, "max_order_quantity": 9},
+            "sample": {"n": 300, "seed": ctx.seed}}]                                        # 10^5 states
+    if not quick:
+        out += [{"kind": "hendrix", "params": {"max_useful_life": 3, "max_order_quantity_a": 6, "max_order_quantity_b": 6}, "sample": {"n": 200, "seed": ctx.seed}},   # 7^6
+                {"kind": "mirjalili", "params": {"max_demand": 3, "max_useful_life": 4, "max_order_quantity": 21, "useful_life_at_arrival_distribution_c_0": [1.0, 0.5, 0.25],
+                                                 "useful_life_at_arrival_distribution_c_1": [0.0, 0.25, -0.5]}, "sample": {"n": 200, "seed": ctx.seed}},            # 7 x 22^3
+                {"kind": "de_moor", "params": {"max_demand": 4, "max_useful_life": 2, "lead_time": 3, "max_order_quantity": 20}, "sample": {"n": 300, "seed": ctx.seed + 1}},   # 21^4
+                {"kind": "de_moor", "params": {"max_demand": 4, "max_useful_life": 9, "lead_time": 8, "max_order_quantity": 1}, "sample": {"n": 300, "seed": ctx.seed + 2}}]   # 2^16 exactly
     return out
 
 
 def tables(ctx, problems, x64=True):
     """returns list of (problem, meta, npz) ; npz is None when the implementation raised"""
     outs = [str(ctx.scratch / f"tab_{i}.npz") for i in range(len(problems))]
-    jobs = [{"kind": "problem_tables", "problem": p, "out": o, "x64": x64} for p, o in zip(problems, outs)]
+    jobs = [{"kind": "problem_tables", "problem": p, "out": o, "x64": x64, "pre": p.get("pre", []), "sample": p.get("sample")} for p, o in zip(problems, outs)]
     res = core.run_workers(ctx, jobs, nproc=8)
     result = []
     for p, o, r in zip(problems, outs, res):
